@@ -50,11 +50,18 @@ class CountingLock(object):
         self.ctx = ctx
         self.contentions = 0
 
-    def acquire(self, *a, **k):
+    def acquire(self, blocking=True, timeout=-1):
         if self.lock.acquire(False):
             return True
         self.contentions += 1
-        return self.lock.acquire(*a, **k)
+        if not blocking:
+            return False
+        if timeout is not None and timeout >= 0:
+            # virtual time: a bounded wait on a held lock is a wait that may run out - here it always does (no
+            # wall-clock waiting in the check; the unchanged engine never makes a bounded wait)
+            self.timed_waits_expired = getattr(self, 'timed_waits_expired', 0) + 1
+            return False
+        return self.lock.acquire()
 
     def release(self):
         self.lock.release()
@@ -232,10 +239,37 @@ def run_case(ctx, case):
         lock = CountingLock(eng._lock, ctx)
         eng._lock = lock
         evals = [0]
+        # In about a third of the histories the sessions establish the identity themselves, through the SLUGS plug-in
+        # configured by ONE settings list shared by all sessions (as the server shares it); the stub behind requests.get
+        # answers from the identity table.  In the others the identity table replaces KmipSession.authenticate.
+        slugs_mode = rng.random() < 0.35
+        table = {c[0][0]: c[0][1] for c in clients}
+        shared_settings = [('auth:slugs', {'enabled': 'True', 'url': 'http://slugs.kv/'})]
+        wrong_identity = []
+
+        class _Resp(object):
+            def __init__(self, code, body=None):
+                self.status_code = code
+                self._body = body
+
+            def json(self):
+                return self._body
+
+        def fake_get(url, *a, **k):
+            time.sleep(0)
+            parts = url.rstrip('/').split('/')
+            if parts[-1] == 'groups':
+                user = parts[-2]
+                return _Resp(200 if user in table else 404, {'groups': table.get(user)})
+            user = parts[-1]
+            return _Resp(200 if user in table else 404, {})
         # identity / version hooks -------------------------------------------------
         real_pr = eng.process_request
 
         def pr(request, credential=None):
+            want = getattr(tl, 'ident', None)
+            if want is not None and (tuple(credential or ()) [:1] != (want[0],) or (credential[1] or None) != (want[1] or None)):
+                wrong_identity.append((repr(credential), repr(want)))
             tl.expect = (credential, request.request_header.protocol_version)
             try:
                 return real_pr(request, credential)
@@ -264,7 +298,7 @@ def run_case(ctx, case):
         mon = sys.monitoring
         tool = 4
         watched = ('/kmip/services/server/engine.py', '/kmip/services/server/session.py', '/kmip/pie/',
-                   '/kmip/services/server/policy.py')
+                   '/kmip/services/server/policy.py', '/kmip/services/server/auth/')
         try:
             mon.use_tool_id(tool, 'kv-c10')
         except ValueError:
@@ -287,10 +321,14 @@ def run_case(ctx, case):
             ident, version = clients[ci]
             der = rig.make_cert((ident[0],), 'client' if ci != refused_client else 'server')
             conn = StampedConnection(frames[ci], der, random.Random(ci), counter, log, ci)
-            sess = rig.make_session(eng, conn, name='c10-%d' % ci)
-            # groups come from an auth plug-in in production; here the session's authenticate is replaced by
-            # the identity table so that clients carry different group lists
-            sess.authenticate = lambda certificate, request, ident=ident: ident
+            tl.ident = ident if ci != refused_client else None
+            if slugs_mode:
+                sess = rig.make_session(eng, conn, name='c10-%d' % ci, auth_settings=shared_settings)
+            else:
+                sess = rig.make_session(eng, conn, name='c10-%d' % ci)
+                # groups come from an auth plug-in in production; here the session's authenticate is replaced by
+                # the identity table so that clients carry different group lists
+                sess.authenticate = lambda certificate, request, ident=ident: ident
             while True:
                 try:
                     sess._handle_message_loop()
@@ -302,12 +340,17 @@ def run_case(ctx, case):
         for ci_, (ident, version) in enumerate(clients):
             rig.make_cert((ident[0],), 'client' if ci_ != refused_client else 'server')     # before the threads start
         threads = [threading.Thread(target=session_thread, args=(ci,)) for ci in range(nclients)]
+        import kmip.services.server.auth.slugs as slugs_mod
+        real_get = slugs_mod.requests.get
+        if slugs_mode:
+            slugs_mod.requests.get = fake_get
         try:
             for t in threads:
                 t.start()
             for t in threads:
                 t.join(60)
         finally:
+            slugs_mod.requests.get = real_get
             sys.setswitchinterval(old_si)
             mon.set_events(tool, 0)
             mon.register_callback(tool, mon.events.LINE, None)
@@ -321,6 +364,7 @@ def run_case(ctx, case):
         ctx.count('histories_run')
         ctx.count('yields_injected', yields[0])
         ctx.count('lock_contentions', lock.contentions)
+        ctx.count('bounded_lock_waits_expired', getattr(lock, 'timed_waits_expired', 0))
         ctx.count('identity_hook_evaluations', evals[0])
         detail = {'clients': [(c[0], c[1]) for c in clients], 'requests': [[f.hex()[:300] for f in fr] for fr in frames]}
         if alive:
@@ -330,6 +374,12 @@ def run_case(ctx, case):
             from kv.monitors.logwatch import innermost_kmip_frame
             ctx.violation('escaped|%s|%s' % (type(e).__name__, innermost_kmip_frame(e.__traceback__)),
                           'exception %s: %s left a session thread under concurrency' % (type(e).__name__, str(e)[:200]), detail)
+        if slugs_mode:
+            ctx.count('histories_with_plugin_authentication')
+        for got, want in wrong_identity[:3]:
+            ctx.violation('identity:session-authentication',
+                          'a session handed identity %s to the engine for a connection whose certificate and directory entry '
+                          'say %s (sessions authenticating concurrently through the shared plug-in settings)' % (got, want), detail)
         for hp in hook_problems[:3]:
             ctx.violation('identity:%s' % hp[0], 'at %s the engine held identity %s / version %s while serving a request of '
                           'identity %s / version %s' % hp, detail)
